@@ -100,7 +100,7 @@ class C07(Spec):
     pid = "C07"
     groups = ["vui"]
     title = "Keys do what the keymap says on every history and never crash the UI"
-    oracle_filter = {"equals_model"}
+    oracle_filter = {"state_equals_model", "well_formed_result"}
     rule = ("the real ui.State driven key by key over synthetic worlds (threads with 0..9 ancestors and 0..12 replies, replies with "
             "their own replies, items with 0..11 links, empty and absent reply collections, feeds that resolve to nothing), with "
             "preload 0..3: sequences of <= 60 keys from the keymap tokens (j k g h l space c r a o p b digits Enter . : Esc Backspace, "
